@@ -74,6 +74,14 @@ def apply_edit(engine, ed: dict) -> None:
         if len(terms) > 1:
             i, j = ed["ti"] % len(terms), (ed["ti"] + 1) % len(terms)
             terms[i], terms[j] = terms[j], terms[i]
+    elif t == "long_rule":
+        # a machine-generated rule: the first proposition of the antecedent chained n times (the text the spec side keeps)
+        b = engine.rule_blocks[ed["b"] % len(engine.rule_blocks)]
+        r = b.rules[ed["r"] % len(b.rules)]
+        was_loaded = r.is_loaded()
+        r.text = ed["text"]
+        if was_loaded:
+            r.load(engine)
     elif t == "same_value":
         # an edit to the value the attribute already has (a GUI that writes every field back): changes nothing
         w = ed["what"]
@@ -167,6 +175,9 @@ def apply_edit_spec(spec: dict, ed: dict) -> None:
         if len(terms) > 1:
             i, j = ed["ti"] % len(terms), (ed["ti"] + 1) % len(terms)
             terms[i], terms[j] = terms[j], terms[i]
+    elif t == "long_rule":
+        b = spec["blocks"][ed["b"] % len(spec["blocks"])]
+        b["rules"][ed["r"] % len(b["rules"])]["text"] = ed["text"]  # build() prefers a literal text over the AST
     elif t == "same_value":
         pass
     elif t == "gain0":
@@ -197,6 +208,23 @@ def gen_edit(rng, spec: dict) -> dict:
         t = rng.choice(["term_attr", "term_attr", "term_attr", "discrete_cell", "linear_coeff", "function_var", "range",
                         "rule_weight", "resolution", "activation_param", "operator", "out_setting", "unload_rule", "swap_rules",
                         "swap_terms"])
+        if spec.get("flags", {}).get("long_rules") and rng.random() < 0.25:
+            bi = rng.randrange(len(spec["blocks"]))
+            ri = rng.randrange(len(spec["blocks"][bi]["rules"]))
+            r = spec["blocks"][bi]["rules"][ri]
+            if "text" not in r:
+                words = S.rule_text(r).split()
+                end = words.index("then")
+                unit = []
+                for w in words[1:end]:
+                    if w in ("and", "or"):
+                        break
+                    if w not in ("(", ")"):
+                        unit.append(w)
+                n = rng.choice([120, 400, 400])
+                conn = rng.choice(["and", "or"])
+                text = "if " + f" {conn} ".join([" ".join(unit)] * n) + " " + " ".join(words[end:])
+                return {"t": "long_rule", "b": bi, "r": ri, "n": n, "text": text}
         if rng.random() < 0.06:
             bi = rng.randrange(len(spec["blocks"]))
             return {"t": "same_value", "what": rng.choice(["rule_text", "rule_text", "rule_weight", "range", "names", "operators"]),
